@@ -13,7 +13,7 @@ from ..graphs import build_clean_network
 ID = "C14"
 RULE = ("random joint degree distributions over 1..4 topologies (zero components, ragged supports, rational weights; with and without a key "
         "positive in every topology), topology-name lists drawn from {'2-clique','3-clique','2-clique-blue','a','tau','x-y-z', random strings} "
-        "incl. lists without '2-clique' and lists where it is not first; random symmetric mixing matrices; clean clique/cycle networks from the "
+        "incl. lists without '2-clique' and lists where it is not first; half of the inversions are given the very dict objects the library returned (re-checked afterwards and inverted a second time); random symmetric mixing matrices; clean clique/cycle networks from the "
         "harness builder; non-trivial = >= 2 topologies and >= 3 keys; distinct = SHA-1 of the concrete distribution/matrix/network and names")
 ASSUMPTIONS = ["identities compared at 1e-10", "the inversion clause is asserted only when some joint degree is positive in every topology",
                "network clause uses vertex-transitive motifs (cliques, cycles) where memberships and edge ends are proportional"]
@@ -120,14 +120,29 @@ def check_excess_and_inverse(res, rng, T, names, P):
             rng.shuffle(order)          # a mapping has no order: the list of names says which column a topology is
             if order != list(names):
                 res.count("dict_order_differs_from_names")
-        inv = sut("JointDegreeFromExcess.get_joint_degree_distribution", gcmpy.JointDegreeFromExcess.get_joint_degree_distribution,
-                  {n: dict(qd[n]) for n in order}, list(names))
+        own = rng.random() < 0.5
+        if own:
+            res.count("inversions_of_the_library's_own_dicts")
+        # either copies, or the very dict objects the library returned above (a caller derives q, inverts it, and goes on using q)
+        arg = {n: (qd[n] if own else dict(qd[n])) for n in order}
+        inv = sut("JointDegreeFromExcess.get_joint_degree_distribution", gcmpy.JointDegreeFromExcess.get_joint_degree_distribution, arg, list(names))
         nz = {k: v for k, v in P.items() if any(k)}
         Z = sum(nz.values())
         want = {k: v / Z for k, v in nz.items()}
         bad = same_dist(inv, want)
         if bad is not None:
             res.violate("inversion-does-not-return-P", key=bad, got=inv.get(bad), want=float(want.get(bad, 0)), ctx=ctx); return
+        # the excess distributions that were inverted are still the excess distributions of P, and inverting them again returns P again
+        for i, n in enumerate(names):
+            bad = same_dist(arg[n], want_q[i])
+            if bad is not None:
+                res.violate("excess-distribution-differs", topology=i, key=bad, got=arg[n].get(bad), want=float(want_q[i].get(bad, 0)),
+                            after="they were handed to JointDegreeFromExcess.get_joint_degree_distribution", own_dicts=own, ctx=ctx); return
+        inv2 = sut("JointDegreeFromExcess.get_joint_degree_distribution (again)", gcmpy.JointDegreeFromExcess.get_joint_degree_distribution, arg, list(names))
+        res.count("second_inversions")
+        bad = same_dist(inv2, want)
+        if bad is not None:
+            res.violate("inversion-does-not-return-P", key=bad, got=inv2.get(bad), want=float(want.get(bad, 0)), second_inversion_of_the_same_dicts=True, ctx=ctx); return
     else:
         res.count("inversion_not_applicable")
 
